@@ -95,6 +95,14 @@ def gen_cfg(r, tier, dims=(1, 2, 2, 2, 3, 3, 4), versions=(6, 6, 6, 2, 3, 7, 8),
            "evals": r.randint(1, max_evals or (6 if tier == "quick" else 9)),
            "max_intervals": 40 if tier == "quick" else 70, "max_points": 2500 if tier == "quick" else 6000,
            "clock_jumps": r.random() < 0.3, "recalc": r.choice([None, None, None, 1, 2, 3, 5])}
+    if max_evals is None and r.random() < 0.12:
+        # long narrow histories: one or two intervals refined per step over many steps, rebalancing on - the states in
+        # which one dimension's tree is left partly balanced while other dimensions are refined
+        cfg.update(dim=r.choice([2, 2, 3]), lmin=r.choice([1, 1, 2]), rebalancing=True, margin=r.choice([0.9, 1.0]), p_zero=0.0,
+                   p_tie=0.0, mode="mix", evals=r.randint(7, 12 if tier == "quick" else 18), max_intervals=90, long_narrow=True)
+        cfg["lmax"] = cfg["lmin"] + 1 if cfg["lmin"] > 1 else 2
+        cfg["a"], cfg["b"] = cfg["a"][:cfg["dim"]] + [0.0] * max(0, cfg["dim"] - len(cfg["a"])), None
+        cfg["b"] = [x + r.choice(W_CHOICES) for x in cfg["a"]]
     return cfg
 
 
